@@ -10,7 +10,7 @@ PID = 'C16'
 META = dict(
     explanation="only_directed, only_undirected, skeleton, undirected_edges, directed_edges, edge_weights, vstructures, "
                 "moral_graph, induced_subgraph, is_clique, is_complete and degrees are executed on (a) every binary PDAG "
-                "with acyclic directed part (int and float dtype) and (b) every DAG pattern with *symbolic real weights*; "
+                "with acyclic directed part (int, float and bool dtype) and (b) every DAG pattern with *symbolic real weights*; "
                 "each output entry is compared with the definition; weight preservation is a term equality decided by z3 "
                 "for all weights of the pattern at once.",
     bounds=dict(quick="binary PDAGs p <= 3 (all 62+...) and p = 4 with <= 4 edges; weighted DAGs p <= 4 (543 patterns, all real weights); all node subsets S; wide: 4-node weighted DAGs / 3-node PDAGs embedded at nodes 11,1,9,0 of a 12-node graph",
@@ -128,7 +128,8 @@ def h_binary(dt):
         M = I.arr(pat, dt)
         M.buf.frozen = True
         log = CallLog('sempler.utils')
-        entries = [[(1 if dt == 'int' else 1.0) if pat[i][j] else (0 if dt == 'int' else 0.0) for j in range(p)] for i in range(p)]
+        one, zero = {'int': (1, 0), 'float': (1.0, 0.0), 'bool': (True, False)}[dt]
+        entries = [[one if pat[i][j] else zero for j in range(p)] for i in range(p)]
         cl = _checks(u, log, M, pat, entries, p, False)
         return PathResult('checked', cl, inputs=dict(calls=log.inputs(), P=[list(r) for r in pat], dtype=dt),
                           call='binary', info=dict(pattern=[list(r) for r in pat], dtype=dt),
@@ -198,7 +199,7 @@ def obligations(tier):
                              "all PDAG patterns on %d nodes with symbolic real weights: only_directed / only_undirected / edge_weights" % p,
                              expect=('checked',), weight=p))
     for p in (1, 2, 3):
-        for dt in ('int', 'float'):
+        for dt in ('int', 'float', 'bool'):
             ob.append(Obligation('binary_pdag_%s_p%d' % (dt, p), h_binary(dt), I.pair_cubes(p, 2 if p == 3 else 0),
                                  "all binary PDAGs (acyclic directed part) on %d nodes, dtype %s" % (p, dt), expect=('checked',), weight=p))
         ob.append(Obligation('weighted_dag_p%d' % p, h_weighted, I.dag_pair_cubes(p, 2 if p == 3 else 0),
@@ -229,7 +230,7 @@ def replay(rec):
     s = real_sempler()
     u = s.utils
     inp = rec['inputs']
-    P = numpy.array(unj_float(inp['P']), dtype=int if inp.get('dtype') == 'int' else float)
+    P = numpy.array(unj_float(inp['P']), dtype={'int': int, 'bool': bool}.get(inp.get('dtype'), float))
     p = len(P)
     nz = [[bool(P[i][j] != 0) for j in range(p)] for i in range(p)]
     dirc = lambda i, j: nz[i][j] and not nz[j][i]
